@@ -35,6 +35,10 @@ func runC04(c *Ctx) {
 	// a failing exit of the walker feeding the diff wakes whoever is parked on
 	// its queue (shared with C08)
 	r08_4(c, "R04.13")
+	// ... and link members carry their real size, or a stale link left by an
+	// aborted run compares equal (shared with C01/C02/C09/C17)
+	c.R.Rule("R04.14", "the stat of every non-directory carries its on-disk size, recorded after the inode bookkeeping")
+	statSizeAlways(c, "R04.14")
 }
 
 // transferFuncs: non-test functions of packages fsutil and copy.
